@@ -320,6 +320,25 @@ fn str_list(v: Option<&Value>) -> Vec<String> {
 
 fn run_job(job: &Value, stdf: &Vec<(String, Vec<u8>)>) -> Value {
     let mode = job.get("mode").and_then(|v| v.as_str()).unwrap_or("asm");
+    if mode == "par" {
+        // the same inner job on several threads at once (each thread has its own event sink)
+        let inner = job.get("job").cloned().unwrap_or(json!({}));
+        let n = job.get("n").and_then(|v| v.as_u64()).unwrap_or(4) as usize;
+        let mut handles = Vec::new();
+        for _ in 0..n {
+            let inner = inner.clone();
+            let stdf = stdf.clone();
+            handles.push(std::thread::spawn(move || {
+                std::panic::catch_unwind(std::panic::AssertUnwindSafe(|| run_job(&inner, &stdf)))
+                    .unwrap_or_else(|_| json!({"panic": "panic in thread"}))
+            }));
+        }
+        let results: Vec<Value> = handles
+            .into_iter()
+            .map(|h| h.join().unwrap_or_else(|_| json!({"panic": "thread died"})))
+            .collect();
+        return json!({"id": job.get("id"), "par": results});
+    }
     let want = job.get("want").cloned().unwrap_or(json!({}));
     let mut fs = make_fs(job, stdf);
     let mut report = diagn::Report::new();
